@@ -181,7 +181,6 @@ template <class CF> static sph::Sum table_sum(const sph::Table& T, int nmx, int 
   return s;
 }
 
-static bool dev_on(const char* sub) { const char* e = getenv("C19_DEV_SUBS"); return !e || strstr(e, sub); }   // DEV ONLY
 int main(int argc, char** argv) {
   Ctx ctx(argc, argv);
   const bool T = ctx.thorough();
@@ -201,7 +200,6 @@ int main(int argc, char** argv) {
   ctx.bound("basis.norm", "FULL, SCHMIDT; both constructors; operator() with and without gradient");
   ctx.bound("circle.lons", "Circle(p,z,gradp in {false,true}) at lon in {0,1e-9,45,180,-90,720} by degrees and by (sin,cos), with and without gradient arguments, on every case of the basis lattice");
   for (int pass = 0; pass < 2; ++pass) {
-    if (!dev_on(pass == 0 ? "basis" : "circle")) continue;
     ctx.sub(pass == 0 ? "basis" : "circle");
     const std::string pre = pass == 0 ? "basis" : "circle";
     for (int ia = 0; ia < 2; ++ia) for (int ir = 0; ir < 4; ++ir) for (size_t id = 0; id < dirs.size(); ++id) for (int norm = 0; norm < 2; ++norm) {
@@ -247,7 +245,7 @@ int main(int argc, char** argv) {
   }
 
   // =================================================================== linearity on dense vectors
-  if (dev_on("linearity")) {
+  {
     ctx.sub("linearity");
     const int N = NB;
     ctx.bound("linearity", "3 dense coefficient vectors A, B, D of degree " + fmti(N) + " (and truncations (N,N), (N-1,2), (2,0)): lib(A) = oracle(A); lib(2.5A-0.75B+D) = 2.5 lib(A) - 0.75 lib(B) + lib(D); every point of the lattice, both norms, direct and circle");
@@ -304,7 +302,6 @@ int main(int argc, char** argv) {
     ctx.bound("harm12", "main set: dense, layout " + fmti(N) + ", every truncation; secondary set(s): layouts N1 in {nmx1, nmx1+1}, every nmx1 <= nmx, mmx1 <= min(nmx1,mmx) and (-1,-1), every unit coefficient vector; tau in {0,1,-0.5} (SphericalHarmonic1), (tau1,tau2) in {0,1,-0.5}^2 with a dense first correction and unit second correction (SphericalHarmonic2); " + fmti((long long)d8.size()) + " directions x r/a in {0.5,1,2}; both norms; direct (value, gradient) and Circle");
     Lay A(N); A.fill(4, 1);
     for (int which = 1; which <= 2; ++which) {
-      if (!dev_on(which == 1 ? "harm1" : "harm2")) continue;
       ctx.sub(which == 1 ? "harm1" : "harm2");
       const std::string pre = which == 1 ? "harm1" : "harm2";
       for (int ir = 0; ir < 3; ++ir) for (size_t id = 0; id < d8.size(); ++id) for (int norm = 0; norm < 2; ++norm) {
@@ -379,7 +376,7 @@ int main(int argc, char** argv) {
   }
 
   // =================================================================== (b) scaling at high degree
-  if (dev_on("scaling")) {
+  {
     ctx.sub("scaling");
     std::vector<int> Ns = T ? std::vector<int>{60, 200, 360} : std::vector<int>{60};
     ctx.bound("scaling", std::string("N in ") + (T ? "{60,200,360}" : "{60}") + "; coefficient sets: 1/(n+1)^2, all ones, alternating-sign pattern/(n+1); truncations (N,N) and (5N/6, N/2) on the layout N; r/a in {0.9, 1, 2} and 0.5 for N = 60; " + fmti((long long)dirs.size()) + " directions; both norms; value, gradient, Circle at lon 0, 1e-9, 45");
